@@ -323,4 +323,83 @@ theorem loadModel_ok_iff (cfg : LoadCfg) (crown : InpCrown) (data : Val) (args :
     simp only [extraOut]
     cases cfg.move <;> simp
 
+/-! ### a missing required key of a flat dict layout (DISABLE / FIRST) -/
+
+/-- every child of the dict node is a field leaf -/
+def allFields : List (String × InpCrown) → Bool
+  | [] => true
+  | (_, .field _) :: r => allFields r
+  | _ => false
+
+theorem requiredKeys_mem_allFields (cfg : LoadCfg) : ∀ (m : List (String × InpCrown)), allFields m = true →
+    ∀ k, k ∈ requiredKeys cfg m → ∃ id, (k, InpCrown.field id) ∈ m ∧ (cfg.field id).required = true
+  | [], _, k, hk => by simp [requiredKeys] at hk
+  | (k0, .field id) :: r, hf, k, hk => by
+    simp only [allFields] at hf
+    simp only [requiredKeys] at hk
+    split at hk
+    · rename_i hreq
+      simp only [List.mem_cons] at hk
+      rcases hk with rfl | hk
+      · exact ⟨id, by simp, hreq⟩
+      · obtain ⟨id', hm, hr⟩ := requiredKeys_mem_allFields cfg r hf k hk
+        exact ⟨id', by simp [hm], hr⟩
+    · obtain ⟨id', hm, hr⟩ := requiredKeys_mem_allFields cfg r hf k hk
+      exact ⟨id', by simp [hm], hr⟩
+  | (k0, .none) :: r, hf, _, _ => by simp [allFields] at hf
+  | (k0, .dict _ _) :: r, hf, _, _ => by simp [allFields] at hf
+  | (k0, .list _ _) :: r, hf, _, _ => by simp [allFields] at hf
+
+/-- the children loop of a flat root dict node stops at the first missing required key with the
+    `NoRequiredFieldsLoadError` naming all missing required keys -/
+theorem loadDictChildren_missing (cfg : LoadCfg) (hmode : cfg.mode ≠ .all) (kvs : List (String × Val))
+    (req : List String) : ∀ (r : List (String × InpCrown)), allFields r = true →
+    (∀ k id, (k, InpCrown.field id) ∈ r → ∀ v, Val.lookup k kvs = some v → loaderOk cfg id v = true) →
+    (∃ k id, (k, InpCrown.field id) ∈ r ∧ (cfg.field id).required = true ∧ Val.lookup k kvs = none) →
+    ∀ (checked hnf : Bool) (extra : List (String × Val)) (st : LState),
+    ∃ st', loadDictChildren cfg [] (.dict kvs) req r checked hnf extra st =
+      (st', .raised ⟨[], .noRequiredFields (req.filter fun k => !(Val.dict kvs).keys.contains k) (.dict kvs)⟩)
+  | [], _, _, hmiss, _, _, _, _ => by
+    obtain ⟨k, id, hm, _⟩ := hmiss
+    simp at hm
+  | (k0, .field id0) :: r, hf, hpres, hmiss, checked, hnf, extra, st => by
+    simp only [allFields] at hf
+    unfold loadDictChildren
+    by_cases hhere : (cfg.field id0).required = true ∧ Val.lookup k0 kvs = none
+    · -- this child is the missing one
+      refine ⟨st, ?_⟩
+      have hg : (Val.dict kvs).getItem (.s k0) = .keyError := by simp [Val.getItem, hhere.2]
+      unfold fieldFromDict getFromDict notFoundDict
+      simp only [hhere.1, ↓reduceIte, hg]
+      cases hm : cfg.mode with
+      | all => exact absurd hm hmode
+      | disable => simp [withTrail, hm]
+      | first => simp [withTrail, hm]
+    · -- this child loads fine, the missing key is further on
+      have hok : okFieldDict cfg (.dict kvs) k0 id0 = true := by
+        unfold okFieldDict
+        cases hl : Val.lookup k0 kvs with
+        | some v =>
+          simp only [Val.getItem, hl]
+          exact hpres k0 id0 (by simp) v hl
+        | none =>
+          simp only [Val.getItem, hl]
+          cases hr : (cfg.field id0).required
+          · rfl
+          · exact absurd ⟨hr, hl⟩ hhere
+      rw [fieldFromDict_of_ok cfg [] (.dict kvs) req k0 id0 checked hnf st hok rfl]
+      simp only []
+      have hmiss' : ∃ k id, (k, InpCrown.field id) ∈ r ∧ (cfg.field id).required = true ∧
+          Val.lookup k kvs = none := by
+        obtain ⟨k, id, hm, hr, hl⟩ := hmiss
+        simp only [List.mem_cons, Prod.mk.injEq, InpCrown.field.injEq] at hm
+        rcases hm with ⟨rfl, rfl⟩ | hm
+        · exact absurd ⟨hr, hl⟩ hhere
+        · exact ⟨k, id, hm, hr, hl⟩
+      exact loadDictChildren_missing cfg hmode kvs req r hf
+        (fun k id hm => hpres k id (by simp [hm])) hmiss' true hnf extra _
+  | (k0, .none) :: r, hf, _, _, _, _, _, _ => by simp [allFields] at hf
+  | (k0, .dict _ _) :: r, hf, _, _, _, _, _, _ => by simp [allFields] at hf
+  | (k0, .list _ _) :: r, hf, _, _, _, _, _, _ => by simp [allFields] at hf
+
 end Adaptix.Layout
